@@ -19,7 +19,7 @@ Print Assumptions C17_order.
 (* over a whole history: the plan is consumed front to back, and the hosts that got a message because the plan was
    walked (initial send, RETRY_NEXT_HOST, speculative execution, fall-through after an unusable pool) form, in the order
    sent, a subsequence of the load balancer's plan *)
-Theorem C17_order_history : forall c lb target pl cl idem hasp maxa ks ops s evs,
+Theorem C17_order_history : forall c lb target pl cl idem hasp maxa ks ops s evs, no_page ops = true ->
   exec c (init lb target pl cl idem hasp maxa ks) ops = (s, evs) ->
   consumed s ++ plan s = make_plan lb target /\ subseq (plan_sends evs) (consumed s)
   /\ subseq (plan_sends evs) (make_plan lb target).
@@ -27,7 +27,7 @@ Proof. intros c lb target pl cl idem hasp maxa ks. exact (order_history c lb tar
 Print Assumptions C17_order_history.
 
 (* a host of a duplicate-free plan gets at most one plan-walk message ... *)
-Theorem C17_no_repeat : forall c lb target pl cl idem hasp maxa ks ops s evs,
+Theorem C17_no_repeat : forall c lb target pl cl idem hasp maxa ks ops s evs, no_page ops = true ->
   exec c (init lb target pl cl idem hasp maxa ks) ops = (s, evs) ->
   NoDup (make_plan lb target) -> NoDup (plan_sends evs).
 Proof. intros c lb target pl cl idem hasp maxa ks. exact (no_repeat c lb target pl cl idem hasp maxa ks). Qed.
@@ -58,35 +58,52 @@ Print Assumptions C17_exhaustion.
    was taken from the plan *)
 Theorem C17_errors_only_plan_hosts : forall c lb target pl cl idem hasp maxa ks ops s evs x,
   exec c (init lb target pl cl idem hasp maxa ks) ops = (s, evs) ->
-  In x (hosts_of s evs) -> In x (consumed s) /\ In x (make_plan lb target).
+  In x (hosts_of s evs) -> In x (consumed s) /\ (no_page ops = true -> In x (make_plan lb target)).
 Proof.
   intros c lb target pl cl idem hasp maxa ks ops s evs x H Hx. split.
-  - destruct (history_inv c lb target pl cl idem hasp maxa ks ops s evs H) as (_ & _ & I3). apply I3, Hx.
-  - exact (mentioned_in_plan c lb target pl cl idem hasp maxa ks ops s evs x H Hx).
+  - exact (mentioned_consumed c lb target pl cl idem hasp maxa ks ops s evs x H Hx).
+  - intros N. exact (mentioned_in_plan c lb target pl cl idem hasp maxa ks ops s evs x N H Hx).
 Qed.
 Print Assumptions C17_errors_only_plan_hosts.
 
-(* "listing every attempted host": when a request that has no outcome yet fails with NoHostAvailable, every host of the
-   plan is a key of the reported errors, or still has something open (an unanswered attempt of a speculative execution, a
-   queued executor task).  In a history without concurrent attempts nothing is open: the keys are exactly the plan. *)
-Theorem C17_exhaustion_lists_every_host : forall c lb target pl cl idem hasp maxa ks ops s evs o s' ev errs,
-  exec c (init lb target pl cl idem hasp maxa ks) ops = (s, evs) -> fin_res s = None -> fin_exc s = None ->
-  step c s o = (s', ev) -> fin_exc s' = Some (XNoHost errs) ->
-  forall h, In h (make_plan lb target) -> In h (keys errs) \/ In h (open_hosts s').
-Proof. exact exhaustion_covers. Qed.
-Print Assumptions C17_exhaustion_lists_every_host.
+(* paged results: start_fetching_next_page (when a paging state is there) is exactly one send_request over a FRESH plan --
+   the explicit target host again, or the load balancer's plan p for this fetch -- from a state whose outcome is cleared *)
+Theorem C17_next_page_fresh_plan : forall c s p, paging s = true ->
+  step c s (NextPage p) = send_request (page_start c s p) true /\
+  plan (page_start c s p) = make_plan p (tgt c) /\ fin_res (page_start c s p) = None /\ fin_exc (page_start c s p) = None /\
+  pools (page_start c s p) = pools s /\ errors (page_start c s p) = errors s /\ retries (page_start c s p) = retries s.
+Proof.
+  intros c s p P. cbn [step]. rewrite P. destruct (page_start_fields c s p) as (A & _ & _ & B & C & D & _ & E & _ & _ & F & _).
+  repeat split; assumption.
+Qed.
+Print Assumptions C17_next_page_fresh_plan.
 
-(* explicit host target: every message goes to that host *)
-Theorem C17_target_only : forall c lb pl cl idem hasp maxa ks ops s evs h,
+(* every page fetch (any stretch of history without a further NextPage, from ANY state, e.g. the one page_start produced) walks
+   its plan front to back: what was consumed is a prefix of that plan, the plan-walk messages follow its order, and no host of a
+   duplicate-free plan gets two of them *)
+Theorem C17_order_every_page : forall c ops s s' evs, no_page ops = true -> exec c s ops = (s', evs) ->
+  plan_move s s' evs /\ (NoDup (plan s) -> NoDup (plan_sends evs)).
+Proof.
+  intros c ops s s' evs N H. split; [exact (exec_plan_move c ops s s' evs N H)|exact (page_no_repeat c ops s s' evs N H)].
+Qed.
+Print Assumptions C17_order_every_page.
+
+(* DSE graph analytics re-plan (master first): still duplicate-free *)
+Theorem C17_replan_master_nodup : forall m p, NoDup p -> NoDup (replan_master m p) /\ (forall x, In x (replan_master m p) <-> x = m \/ In x p).
+Proof. exact replan_master_ok. Qed.
+Print Assumptions C17_replan_master_nodup.
+
+(* explicit host target: every message of every page fetch goes to that host *)
+Theorem C17_target_only : forall c lb pl cl idem hasp maxa ks ops s evs h, tgt c = Some h ->
   exec c (init lb (Some h) pl cl idem hasp maxa ks) ops = (s, evs) ->
   forall h' m cz, In (Sent h' m cz) evs -> h' = h.
-Proof. intros c lb pl cl idem hasp maxa ks ops s evs h H. exact (target_only c lb (Some h) pl cl idem hasp maxa ks ops s evs h eq_refl H). Qed.
+Proof. intros c lb pl cl idem hasp maxa ks ops s evs h T H. exact (target_only c lb pl cl idem hasp maxa ks h ops s evs T H). Qed.
 Print Assumptions C17_target_only.
 
 (* non-vacuity: plan [2;0;1], host 2 shut down, host 0 healthy; a read timeout from 0 answered RETRY_NEXT_HOST moves on
    to host 1, whose pool is missing: NoHostAvailable lists 2 (skipped), 0 (failed) and 1 (skipped) *)
 Example C17_nonvacuous :
-  let c := {| pol := scripted [(DNextHost, None)]; fut_ps := None; known := []; pv := 4 |} in
+  let c := {| pol := scripted [(DNextHost, None)]; fut_ps := None; known := []; pv := 4; tgt := None |} in
   let s0 := init [2; 0; 1] None [(0, PHealthy); (1, PMissing); (2, PShutdown)] (Some 1) false false 0 None in
   let '(s, evs) := exec c s0 [Start; Resp 0%nat (RRetryable KReadTimeout 7); Run 0%nat] in
   plan_sends evs = [0] /\
